@@ -21,6 +21,7 @@ RULE = (
     'and a non-cubic grid; distinct = SHA-1 of (cell, resolution, positions) / grid size.'
 )
 RULE += ' Added in rounds 6-9: result retention and a second volume on the same grid while the first is held; L/resolution within 1e-8..6e-4 of an integer; one grid of about 19 million voxels (large along all three axes).'
+RULE += ' Round 14: the resolution is passed positionally in half of the calls.'
 RULE += ' Round 12: one volume (three in the thorough tier) binned from 4.3-5.5 million samples clustered in a few voxels, compared with a bincount of floor(x * n).'
 ASSUMPTIONS = [
     'a coordinate whose product with the grid size is within 1e-9 of an integer may be counted in either neighbouring voxel',
@@ -240,10 +241,13 @@ def run_unit(unit, rng, ctx):
     if unit['i'] % 2:
         from gemdat.volume import trajectory_to_volume
 
-        vol = trajectory_to_volume(traj, resolution=res)
+        # the resolution is the second documented parameter of both entry points: positional and keyword calls
+        vol = trajectory_to_volume(traj, resolution=res) if unit['i'] % 4 == 1 else trajectory_to_volume(traj, res)
         ctx.count('via_volume.trajectory_to_volume')
+        ctx.count('resolution_passed_positionally', unit['i'] % 4 != 1)
     else:
-        vol = traj.to_volume(resolution=res)
+        vol = traj.to_volume(resolution=res) if unit['i'] % 4 == 0 else traj.to_volume(res)
+        ctx.count('resolution_passed_positionally', unit['i'] % 4 != 0)
     data = np.asarray(vol.data)
     chg = snap.diff_traj_content(before, snap.traj_content(traj))
     ctx.check(chg is None, f'{what}: to_volume modified the trajectory it was computed from: {chg}', wit)
